@@ -49,8 +49,14 @@ def ego2map_matrix(ego):
 
 def mk3d(s, frame="base_link", ego=None):
     x, y, yaw = s["x"], s["y"], s.get("yaw", 0.0)
+    zoff = 0.0
     if frame == "map":
-        x, y, yaw = geom.ego_to_map(x, y, yaw, ego)
+        if len(ego) == 6:   # level ego at a height: (x, y, z, yaw, 0, 0)
+            assert ego[4] == 0.0 and ego[5] == 0.0, "map rendering of specs supports level ego poses only"
+            x, y, yaw = geom.ego_to_map(x, y, yaw, (ego[0], ego[1], ego[3]))
+            zoff = ego[2]
+        else:
+            x, y, yaw = geom.ego_to_map(x, y, yaw, ego)
     q = Quaternion(axis=[0, 0, 1], angle=yaw)
     if s.get("pitch") or s.get("roll"):
         q = Quaternion(geom.quat_from_ypr(yaw, s.get("pitch", 0.0), s.get("roll", 0.0)))
@@ -61,7 +67,7 @@ def mk3d(s, frame="base_link", ego=None):
     return DynamicObject(
         unix_time=s.get("t", 100),
         frame_id=FrameID.MAP if frame == "map" else FrameID.BASE_LINK,
-        position=(float(x), float(y), float(s.get("z", 0.0))),
+        position=(float(x), float(y), float(s.get("z", 0.0)) + zoff),
         orientation=q,
         shape=Shape(ShapeType.BOUNDING_BOX, tuple(float(v) for v in s.get("size", (2.0, 4.0, 1.5)))),
         velocity=tuple(vel) if vel is not None else None,
@@ -73,7 +79,7 @@ def mk3d(s, frame="base_link", ego=None):
     )
 
 
-CAMS = {"CAM_FRONT": FrameID.CAM_FRONT, "CAM_BACK": FrameID.CAM_BACK, "CAM_FRONT_RIGHT": FrameID.CAM_FRONT_RIGHT, "CAM_FRONT_LOWER": FrameID.CAM_FRONT_LOWER, "CAM_TRAFFIC_LIGHT": FrameID.CAM_TRAFFIC_LIGHT,
+CAMS = {"CAM_FRONT_LEFT": FrameID.CAM_FRONT_LEFT, "CAM_BACK_LEFT": FrameID.CAM_BACK_LEFT, "CAM_FRONT": FrameID.CAM_FRONT, "CAM_BACK": FrameID.CAM_BACK, "CAM_FRONT_RIGHT": FrameID.CAM_FRONT_RIGHT, "CAM_FRONT_LOWER": FrameID.CAM_FRONT_LOWER, "CAM_TRAFFIC_LIGHT": FrameID.CAM_TRAFFIC_LIGHT,
         "CAM_TRAFFIC_LIGHT_NEAR": FrameID.CAM_TRAFFIC_LIGHT_NEAR, "CAM_TRAFFIC_LIGHT_FAR": FrameID.CAM_TRAFFIC_LIGHT_FAR}
 
 
